@@ -60,7 +60,13 @@ def run(ctx):
             {"id": "b", "type": {"k": "BOOLEAN"}, "opt": ("DEFAULT", "TRUE", True)},
             {"id": "c", "type": {"k": "BIT STRING", "size": None}},
             {"id": "d", "type": {"k": "SET OF", "elem": {"k": "REF", "name": "SoI"}, "size": None}}]}),
-        ("BigI", {"k": "INTEGER", "cons": genmod.cons(-(1 << 62), (1 << 62))})]}
+        ("BigI", {"k": "INTEGER", "cons": genmod.cons(-(1 << 62), (1 << 62))}),
+        # DEFAULT-valued extension additions (non-zero defaults: a zero default is stored inline)
+        ("SqE", {"k": "SEQUENCE", "ext": 1, "comps": [
+            {"id": "a", "type": {"k": "INTEGER", "cons": genmod.cons(0, 255)}},
+            {"id": "b", "type": {"k": "INTEGER", "cons": genmod.cons(0, 255)}, "opt": ("DEFAULT", "5", 5)},
+            {"id": "c", "type": {"k": "BOOLEAN"}, "opt": "OPTIONAL"},
+            {"id": "d", "type": {"k": "INTEGER", "cons": genmod.cons(0, 65535)}, "opt": ("DEFAULT", "300", 300)}]})]}
     stats = collections.Counter(); fails = []
     for mi, m in enumerate([fixed] + mods):
         wide = (mi % 2 == 0)
